@@ -113,14 +113,6 @@ def run(tier, replay):
         if ac.get(a, (0, 0))[1] == 0:
             raise ToolError("Codec.tla action %s never taken (vacuous model)" % a)
     states, trans = r.distinct, r.generated
-    # the honest empty header list: the implementation-shaped model is expected to deviate from
-    # the oracle here (recorded; the verdict comes from the real code below)
-    r0 = vlib.tlc("mc/MC_Codec", "mc/MC_Codec_empty", workers=2, timeout=600, coverage=False)
-    model_empty_deviates = "Faithful" in r0.invariant_violated
-    if not model_empty_deviates and not r0.finished:
-        print(r0.out[-3000:])
-        raise ToolError("MC_Codec_empty failed without a verdict")
-
     # (M2) Handshake.tla
     rh = vlib.tlc("mc/MC_Handshake", "mc/MC_Handshake", workers=2, timeout=600)
     if rh.invariant_violated:
@@ -134,7 +126,6 @@ def run(tier, replay):
 
     # (A1) streams + expectations from TLC, rendered and fragmented on loopback, read by the real Codec
     cases = emit(("mc/MC_Codec", "mc/MC_Codec_emit_thorough" if thorough else "mc/MC_Codec_emit"), "CODECCASE", "MC_Codec emit")
-    cases += emit(("mc/MC_Codec", "mc/MC_Codec_emit_empty"), "CODECCASE", "MC_Codec emit empty")
     if len(cases) < 100:
         raise ToolError("too few codec cases emitted (%d)" % len(cases))
     stats, mms = replay_codec(rep, wd, cases, thorough)
@@ -187,7 +178,7 @@ def run(tier, replay):
         "exhaustive": True,
         "model": {"codec_config": cfg, "codec_states": states, "codec_depth": r.depth, "handshake_states": rh.distinct,
                   "codec_action_counts": {a: ac[a][1] for a in CODEC_ACTIONS},
-                  "model_deviates_on_empty_headers": model_empty_deviates},
+                  },
         "streams_replayed": len(cases), "streams_ending_in_refusal": n_refusal,
         "socket_runs": stats.get("runs") if stats else 0,
         "single_split_runs": stats.get("single_split_runs") if stats else 0,
